@@ -52,7 +52,11 @@ def unit_molalities(twin=False):
         r.add("walk.frame_only_lm", DISCHARGED if all(not writes(s, key) for key in s.heap if key != ("f", "lm", "R")) else FAILED, "symex", 0, "", kind="frame")
     r.add("reach.walk", DISCHARGED if n else UNDECIDED, "symex", 0, "%d" % n, kind="vacuity")
     # (3) amount from log molality
-    ifs = find_stmt(fn, MODEL, "if(s_x[i]->type==EX)", kinds=("IfStmt",), prefix=True)
+    # the outermost if whose first arm computes the amount with safe_exp: located by effect, so a changed kind test is decided
+    cand = [x for x in A.walk(fn) if x.get("kind") == "IfStmt" and len(x["inner"]) >= 2 and text_of(MODEL, x["inner"][1]).replace("{", "").startswith("s_x[i]->moles=Utilities::safe_exp(")]
+    if not cand:
+        raise Undecided("amount statement of molalities not found")
+    ifs = cand[0]
     c = ctx(functional=("under", "safe_exp")); c.enum_values.update({})
     f, ex, fin, info = region(MODEL, q, [ifs], c)
     EX = hdr.define_value(GS, "EX"); SURF = hdr.define_value(GS, "SURF")
